@@ -30,7 +30,8 @@ def run_tlc(module, cfg, env=None, workers=16, timeout=3600, simulate=None, extr
             heap="8g", coverage=False, seed=None):
     """Runs TLC on spec/<module>.tla with spec/<cfg>; returns TlcResult."""
     meta = tempfile.mkdtemp(prefix="bpverif-tlc-", dir=os.environ.get("TMPDIR", "/tmp"))
-    cmd = ["java", "-XX:+UseParallelGC", "-Xmx" + heap, "-Xss64m", "-cp", JAVA_CP, "tlc2.TLC",
+    # java.io.tmpdir: TLC unpacks its standard modules into a fresh directory per run; keep it inside the metadir
+    cmd = ["java", "-Djava.io.tmpdir=" + meta, "-XX:+UseParallelGC", "-Xmx" + heap, "-Xss64m", "-cp", JAVA_CP, "tlc2.TLC",
            "-workers", str(workers), "-metadir", meta, "-noGenerateSpecTE",
            "-config", cfg]
     if simulate:
